@@ -11,7 +11,9 @@ from model.ota_model import le16
 
 NODE_POOL = [1, 2, 3, 5, 8, 42, 100, 200, 253, 254, 0, 255]
 CHILD_POOL = [0, 1, 2, 3, 10, 100, 254]
-TEXTS = ["", "x", "tëst", "𝛑", "a b", "0", "20.5", "hello world", "-3", "ÅÄÖ", "日本", "a/b", "28/09/2026", "q ", "'\"\\", "\x00z", "  lead"]
+TEXTS = ["", "x", "tëst", "𝛑", "a b", "0", "20.5", "hello world", "-3", "ÅÄÖ", "日本", "a/b", "28/09/2026", "q ", "'\"\\", "\x00z", "  lead",
+         # characters that are syntax in the JSON file format
+         "all fine :-}", "{", "}{", "[1,2", "{\"a\": 1}", "null", "],"]
 VERSION_STRINGS = ["1.4", "1.5", "2.0", "2.1.1", "2.2", "2.2.0", "2.3.2"]
 
 DEFAULT_WEIGHTS = {
@@ -77,7 +79,7 @@ class Gen:
             valid = rng.random() < 0.85
         pool = [p for p, ok in items if ok == valid] or [p for p, _ok in items]
         if rule == "text" and rng.random() < 0.4:
-            return rng.choice(TEXTS[:14])
+            return rng.choice(TEXTS[:14] + TEXTS[17:])
         return rng.choice(pool)
 
     def known_node(self):
